@@ -153,6 +153,25 @@ type c17Env struct {
 	slow map[string]*c17Client
 
 	probed bool
+
+	dialFailed int // clients that could not connect at all
+}
+
+// stuck logs the liveness observation "a waiting client was not served" - unless a client of this
+// scenario could not even connect (the environment's fault, e.g. no ephemeral port on a loaded
+// machine): then fewer clients are waiting than the scenario thinks and the observation means nothing.
+// (The safety observations - who was served while how many were open - stay valid.)
+func (e *c17Env) stuck(openhi int) {
+	if e.dialFailed > 0 {
+		e.g.note(vx.M{"k": "stuck-ignored", "openhi": openhi, "dialfailed": e.dialFailed})
+		return
+	}
+	e.g.stuck(openhi)
+}
+
+func (e *c17Env) dialFail(p string, err error) {
+	e.dialFailed++
+	e.g.note(vx.M{"k": "dialfail", "p": p, "err": err.Error()})
 }
 
 // mapper routes /slow/<p> to the blocking handler.
@@ -293,6 +312,7 @@ func (e *c17Env) dial() *c17Client {
 	conn, err := net.DialTimeout("tcp", fmt.Sprintf("127.0.0.1:%d", e.port), 10*time.Second)
 	if err != nil {
 		e.g.accErr(c.p)
+		e.dialFail(c.p, err)
 		close(c.done)
 		return c
 	}
@@ -322,6 +342,7 @@ func (e *c17Env) dialSlow() *c17Client {
 	conn, err := net.DialTimeout("tcp", fmt.Sprintf("127.0.0.1:%d", e.port), 10*time.Second)
 	if err != nil {
 		e.g.accErr(c.p)
+		e.dialFail(c.p, err)
 		close(c.done)
 		return c
 	}
@@ -369,7 +390,7 @@ func (e *c17Env) expectEntered(cs []*c17Client, n int) bool {
 			return true
 		}
 		if time.Now().After(deadline) {
-			e.g.stuck(e.openNow())
+			e.stuck(e.openNow())
 			return false
 		}
 		time.Sleep(500 * time.Microsecond)
@@ -426,7 +447,7 @@ func (e *c17Env) expectServed(cs []*c17Client, n int) bool {
 	if c17WaitServed(cs, n, 20*time.Second) {
 		return true
 	}
-	e.g.stuck(e.openNow())
+	e.stuck(e.openNow())
 	return false
 }
 
@@ -473,7 +494,7 @@ func (e *c17Env) finish() {
 			break
 		}
 		if time.Now().After(deadline) {
-			e.g.stuck(e.openNow())
+			e.stuck(e.openNow())
 			break
 		}
 		time.Sleep(time.Millisecond)
@@ -579,10 +600,27 @@ func TestVerifC17Server(t *testing.T) {
 			time.Sleep(hold)
 			e.finish()
 		}
-		// S4: at capacity with a client waiting: shrink, then grow to a value still at or below the usage.
+		// S4: at capacity with a client waiting: a burst of reloads (first value = initial cap) that ends at a
+		// value still at or below the usage: shrink then grow, also with reloads that leave maxConnections as
+		// it is in between (every reload of the server calls SetMaxConnection, whatever changed in the spec).
 		// No cap that was ever configured admits the waiting client.
-		for _, v := range [][3]int{{3, 1, 2}, {2, 1, 2}, {3, 1, 3}} {
-			e := c17Start(t, g, v[0], settle, vx.M{"scenario": "shrink-grow-at-capacity", "round": round})
+		bursts := [][]int{{3, 1, 2}, {2, 1, 2}, {3, 1, 3}, {3, 1, 1, 2}, {2, 2, 1, 1, 2}}
+		{
+			// one more, drawn: cap c, then 2-4 reloads with values in 1..c, each with probability 1/3 the
+			// value already configured
+			c := 2 + rng.Intn(2)
+			b := []int{c}
+			for k, n := 0, 2+rng.Intn(3); k < n; k++ {
+				v := 1 + rng.Intn(c)
+				if rng.Intn(3) == 0 {
+					v = b[len(b)-1]
+				}
+				b = append(b, v)
+			}
+			bursts = append(bursts, b)
+		}
+		for _, v := range bursts {
+			e := c17Start(t, g, v[0], settle, vx.M{"scenario": "reload-burst-at-capacity", "round": round, "burst": fmt.Sprint(v)})
 			var cs []*c17Client
 			for i := 0; i < v[0]; i++ {
 				cs = append(cs, e.dial())
@@ -590,8 +628,9 @@ func TestVerifC17Server(t *testing.T) {
 			e.expectServed(cs, v[0])
 			waiting := e.dial()
 			time.Sleep(hold)
-			e.reload(v[1])
-			e.reload(v[2])
+			for _, n := range v[1:] {
+				e.reload(n)
+			}
 			time.Sleep(hold)
 			e.again()
 			_ = waiting // served only after enough of the others have hung up (finish)
@@ -627,7 +666,11 @@ func TestVerifC17Server(t *testing.T) {
 						e.hangup(c)
 					}
 				case 4:
-					e.reload(1 + rng.Intn(4))
+					n := 1 + rng.Intn(4)
+					if rng.Intn(3) == 0 {
+						n = e.lastCap // a reload that leaves maxConnections as it is
+					}
+					e.reload(n)
 					e.again()
 				}
 				time.Sleep(time.Duration(rng.Intn(3000)) * time.Microsecond)
